@@ -35,39 +35,54 @@ func goEnv() []string {
 
 // Build compiles the test binary for pkg (ecs, filter, ...) with tags.
 func (n *Native) Build(pkg, tags string, race bool) (string, error) {
-	key := pkg + "|" + tags + fmt.Sprint(race)
+	return n.BuildMode(pkg, tags, race, false)
+}
+
+// BuildMode: checkptr instruments unsafe pointer arithmetic (-d=checkptr) so that
+// out-of-allocation unsafe.Add results abort the native run.
+func (n *Native) BuildMode(pkg, tags string, race bool, checkptr bool) (string, error) {
+	key := pkg + "|" + tags + fmt.Sprint(race) + fmt.Sprint(checkptr)
 	n.mu.Lock()
 	defer n.mu.Unlock()
 	if b, ok := n.bins[key]; ok {
 		return b, nil
 	}
 	t0 := time.Now()
-	dir := filepath.Join(n.WorkDir, "native-"+pkg+"-"+strings.ReplaceAll(tags, ",", "_")+fmt.Sprint(race))
+	dir := filepath.Join(n.WorkDir, "native-"+pkg+"-"+strings.ReplaceAll(tags, ",", "_")+fmt.Sprint(race)+fmt.Sprint(checkptr))
 	os.RemoveAll(dir)
 	if err := os.MkdirAll(dir, 0o755); err != nil {
 		return "", err
 	}
 	replace := map[string]string{}
-	files, _ := filepath.Glob(filepath.Join(n.HarnessDir, pkg, "*.go"))
-	sort.Strings(files)
-	for _, f := range files {
-		base := filepath.Base(f)
-		if strings.HasSuffix(base, "_sym.go") {
+	for _, hp := range []string{"ecs", "filter", "listener", "generic"} {
+		files, _ := filepath.Glob(filepath.Join(n.HarnessDir, hp, "*.go"))
+		sort.Strings(files)
+		if len(files) == 0 {
 			continue
 		}
-		replace[filepath.Join(n.Repo, pkg, "zz_verif_"+base)] = f
-	}
-	for _, t := range []struct{ tmpl, out string }{{"rt_native.go.tmpl", "zz_verif_rt.go"}, {"rt_test.go.tmpl", "zz_verif_rt_test.go"}} {
-		data, err := os.ReadFile(filepath.Join(n.HarnessDir, "rt", t.tmpl))
-		if err != nil {
-			return "", err
+		for _, f := range files {
+			base := filepath.Base(f)
+			if strings.HasSuffix(base, "_sym.go") {
+				continue
+			}
+			replace[filepath.Join(n.Repo, hp, "zz_verif_"+base)] = f
 		}
-		data = []byte(strings.Replace(string(data), "package PKG", "package "+pkg, 1))
-		real := filepath.Join(dir, t.out)
-		if err := os.WriteFile(real, data, 0o644); err != nil {
-			return "", err
+		tmpls := []struct{ tmpl, out string }{{"rt_native.go.tmpl", "zz_verif_rt.go"}}
+		if hp == pkg {
+			tmpls = append(tmpls, struct{ tmpl, out string }{"rt_test.go.tmpl", "zz_verif_rt_test.go"})
 		}
-		replace[filepath.Join(n.Repo, pkg, t.out)] = real
+		for _, t := range tmpls {
+			data, err := os.ReadFile(filepath.Join(n.HarnessDir, "rt", t.tmpl))
+			if err != nil {
+				return "", err
+			}
+			data = []byte(strings.Replace(string(data), "package PKG", "package "+hp, 1))
+			real := filepath.Join(dir, hp+"_"+t.out)
+			if err := os.WriteFile(real, data, 0o644); err != nil {
+				return "", err
+			}
+			replace[filepath.Join(n.Repo, hp, t.out)] = real
+		}
 	}
 	ov, _ := json.Marshal(map[string]any{"Replace": replace})
 	ovPath := filepath.Join(dir, "overlay.json")
@@ -79,6 +94,9 @@ func (n *Native) Build(pkg, tags string, race bool) (string, error) {
 	}
 	if race {
 		args = append(args, "-race")
+	}
+	if checkptr {
+		args = append(args, "-gcflags=all=-d=checkptr")
 	}
 	args = append(args, "./"+pkg)
 	cmd := exec.Command("go", args...)
@@ -123,6 +141,10 @@ func (n *Native) Run(bin, harness, replay string, repeat int) (NativeOutcome, er
 				res.Outcome = o
 			}
 		}
+	}
+	if res.Outcome == "" && strings.Contains(res.Raw, "checkptr:") {
+		res.Outcome = "VERIF-CHECKPTR: unsafe pointer arithmetic left its allocation"
+		return res, nil
 	}
 	if res.Outcome == "" {
 		return res, fmt.Errorf("native run produced no outcome (err=%v):\n%s", err, tail(buf.String(), 2000))
